@@ -28,6 +28,78 @@ pub struct Obj {
 
 pub const THREAD_STACK: usize = 16 << 20;
 
+/// A call to be made from a thread-local destructor at thread exit (F10b).
+struct ExitCall {
+    sim: Arc<SimThread>,
+    world: Arc<Mutex<World>>,
+    obj: Arc<Obj>,
+    req: Request,
+    expected: Arc<RefResult>,
+    op: usize,
+}
+
+struct ExitList(std::cell::RefCell<Vec<ExitCall>>);
+
+impl Drop for ExitList {
+    fn drop(&mut self) {
+        let calls = std::mem::take(&mut *self.0.borrow_mut());
+        for c in calls {
+            let (r, _steps) = exec::guarded(0, || match c.req.method {
+                Method::IsMatch => exec::is_match(&c.obj.re.0, &c.req.input),
+                _ => exec::replace_all(&c.obj.re.0, &c.req.input, &c.req.repl),
+            });
+            let got = match r {
+                Ok(s) => s,
+                Err(a) => a.render(),
+            };
+            let ok = got == c.expected.open || c.expected.unstable;
+            let t = now();
+            c.sim.with(|s| {
+                s.logline(&format!(
+                    "t={} T{} at-exit #{} obj{} {} -> {} ref={} {}",
+                    t,
+                    c.sim.idx,
+                    c.op,
+                    c.obj.id,
+                    c.req.show(),
+                    got,
+                    c.expected.open,
+                    if ok { "ok" } else { "MISMATCH" }
+                ))
+            });
+            let mut w = wlock(&c.world);
+            w.rec.compared += 1;
+            // std documents that `LocalKey::with` panics when the key is used during or after
+            // its destruction; a library that keeps per-thread scratch behind `with` inherits
+            // that limitation of thread-local storage. It is an effect of the calling thread's
+            // teardown, not of history, other objects or other threads: recorded, not alarmed.
+            let tls_teardown = got.contains("Thread Local Storage value during or after destruction");
+            if !ok && tls_teardown {
+                w.rec.inconclusive.push(format!(
+                    "at-exit call {}: the library's thread-local storage was already destroyed ({})",
+                    c.req.show(),
+                    got
+                ));
+            } else if !ok {
+                w.rec.violations.push(Violation {
+                    class: "result-mismatch".into(),
+                    thread: c.sim.idx,
+                    op: c.op,
+                    poll: 0,
+                    t,
+                    request: format!("{} (made from a thread-local destructor at thread exit)", c.req.show()),
+                    expected: c.expected.open.clone(),
+                    got,
+                });
+            }
+        }
+    }
+}
+
+thread_local! {
+    static EXIT_CALLS: ExitList = const { ExitList(std::cell::RefCell::new(Vec::new())) };
+}
+
 struct IterSlot {
     // field order matters: the iterator borrows from `obj` and must drop first
     it: Option<StrIter<'static>>,
@@ -61,6 +133,7 @@ fn now() -> u64 {
 }
 
 struct Ctx {
+    fresh: bool,
     sim: Arc<SimThread>,
     spec: Arc<RunSpec>,
     world: Arc<Mutex<World>>,
@@ -775,6 +848,46 @@ impl Ctx {
                 }));
                 debug_assert!(r.is_err());
             }
+            Op::AtExitCall {
+                slot,
+                method,
+                input,
+                repl,
+            } => {
+                if !self.fresh {
+                    // long-lived thread: it never exits during the run; make the call now
+                    return self.do_simple(i, *slot, *method, input, repl);
+                }
+                let obj = match self.get_obj(*slot) {
+                    Some(o) => o,
+                    None => return self.skip(i, "no object in slot"),
+                };
+                let req = Request {
+                    key: obj.key.clone(),
+                    method: *method,
+                    input: input.clone(),
+                    repl: repl.clone(),
+                };
+                let expected = self.reference(&req);
+                self.log(format!(
+                    "t={} T{} #{} registers an at-exit call obj{} {}",
+                    now(),
+                    self.me(),
+                    i,
+                    obj.id,
+                    req.show()
+                ));
+                wlock(&self.world).rec.at_exit_calls += 1;
+                let call = ExitCall {
+                    sim: self.sim.clone(),
+                    world: self.world.clone(),
+                    obj,
+                    req,
+                    expected,
+                    op: i,
+                };
+                let _ = EXIT_CALLS.try_with(|l| l.0.borrow_mut().push(call));
+            }
             Op::ClockAdvance { ms } => {
                 crate::clock::jump_ms(*ms);
                 wlock(&self.world).rec.clock_jumps += 1;
@@ -816,6 +929,10 @@ fn thread_main(mut ctx: Ctx) {
     ctx.sim.shared.tcells[idx]
         .tid
         .store(sched::gettid(), Ordering::Relaxed);
+    if ctx.fresh && ctx.spec.exit_list_first {
+        // register the harness's thread-local before the library's
+        let _ = EXIT_CALLS.try_with(|l| l.0.borrow().len());
+    }
     hook::attach(Some(ctx.sim.clone()), ctx.spec.mask());
     crate::clock::set_sim_thread(true);
     let _ = hook::take_jumps_fired();
@@ -991,6 +1108,7 @@ pub fn run(
             }
             let r = std::panic::catch_unwind(std::panic::AssertUnwindSafe(|| {
                 thread_main(Ctx {
+                    fresh: !use_pool,
                     sim: sim_c,
                     spec: spec_c,
                     world: world_c,
